@@ -60,33 +60,34 @@ Lemma ll_scan_S fuel st d b r :
 Proof. reflexivity. Qed.
 
 (** mode 3 (strip blanks + compact), enough fuel *)
-Definition scan3 (d rest : bytes) : Cres (option bytes) := ll_scan (S (length rest)) 3 d rest.
+Definition scanm (st : nat) (d rest : bytes) : Cres (option bytes) := ll_scan (S (length rest)) st d rest.
+Definition sb (st : nat) : bool := has_bit st 2.
 
-Lemma scan3_nil d : scan3 d [] = Ok (Some (rev d)).
+Lemma scan3_nil st d : scanm st d [] = Ok (Some (rev d)).
 Proof. reflexivity. Qed.
 
-Lemma scan3_cons d b r :
-  scan3 d (b :: r) =
+Lemma scan3_cons st d b r :
+  scanm st d (b :: r) =
   if N.eqb b 35 && negb (N.eqb (hd 0%N d) 92) then
-    let (z, r') := zero_comment (b :: r) in scan3 (z ++ d) r'
-  else if is_blank b then
+    let (z, r') := zero_comment (b :: r) in scanm st (z ++ d) r'
+  else if sb st && is_blank b then
     let (z, r') := zero_blanks r in
     if negb (N.eqb (hd 0%N r') 0) && negb (N.eqb (hd 0%N r') 10) then Ok None
-    else scan3 (z ++ 0%N :: d) r'
-  else if N.eqb b 10 then scan3 (0%N :: d) r
-  else scan3 (b :: d) r.
+    else scanm st (z ++ 0%N :: d) r'
+  else if N.eqb b 10 then scanm st (0%N :: d) r
+  else scanm st (b :: d) r.
 Proof.
-  unfold scan3. cbn [length]. rewrite ll_scan_S.
+  unfold scanm, sb. cbn [length]. rewrite ll_scan_S.
   replace (match d with [] => true | p :: _ => negb (N.eqb p LL_ESC) end) with (negb (N.eqb (hd 0%N d) 92))
     by (destruct d; reflexivity).
-  change (has_bit 3 LL_STRIP_BIT) with true. cbn [andb]. rewrite ll_blank_is_blank. lconsts.
+  rewrite ll_blank_is_blank. lconsts.
   destruct (N.eqb b 35 && negb (N.eqb (hd 0%N d) 92)) eqn:Ec.
   - apply andb_true_iff in Ec as [Ec _]. apply N.eqb_eq in Ec. subst b.
     cbn [zero_comment]. lconsts. cbn [N.eqb Pos.eqb orb].
     pose proof (zero_comment_length r) as Hl.
     destruct (zero_comment r) as [z r']. cbn [snd] in Hl.
     apply ll_scan_fuel; lia.
-  - destruct (is_blank b).
+  - destruct (has_bit st 2 && is_blank b).
     + pose proof (zero_blanks_length r) as Hl.
       destruct (zero_blanks r) as [z r']. cbn [snd] in Hl.
       destruct (negb (N.eqb (hd 0%N r') 0) && negb (N.eqb (hd 0%N r') 10)); [reflexivity|].
@@ -148,21 +149,21 @@ Proof.
   - exists [], b, (l ++ rest). repeat split; auto. now left.
 Qed.
 
-Lemma scan_line : forall (l d rest : bytes),
+Lemma scan_line (st : nat) : forall (l d rest : bytes),
   no_eol l -> eol_led rest ->
-  scan3 d (l ++ rest) =
-  match line_tail (hd 0%N d) l with
+  scanm st d (l ++ rest) =
+  match line_tail_m (sb st) (hd 0%N d) l with
   | None => Ok None
-  | Some e => scan3 (repeat 0%N (length l - length e) ++ rev e ++ d) rest
+  | Some e => scanm st (repeat 0%N (length l - length e) ++ rev e ++ d) rest
   end.
 Proof.
   induction l as [|b l IH]; intros d rest Hl Hr; [reflexivity|].
   inversion Hl as [|? ? Hb Hl']; subst.
-  cbn [app]. rewrite scan3_cons. cbn [line_tail].
+  cbn [app]. rewrite scan3_cons. cbn [line_tail_m].
   destruct (N.eqb b 35 && negb (N.eqb (hd 0%N d) 92)) eqn:Ec.
   - change (b :: l ++ rest) with ((b :: l) ++ rest). rewrite zero_comment_line by assumption.
     cbn [length rev app Nat.sub]. reflexivity.
-  - destruct (is_blank b) eqn:Eb.
+  - destruct (sb st && is_blank b) eqn:Eb.
     + destruct (forallb is_blank l) eqn:Ea.
       * rewrite zero_blanks_all by assumption.
         replace (negb (N.eqb (hd 0%N rest) 0) && negb (N.eqb (hd 0%N rest) 10)) with false.
@@ -175,25 +176,23 @@ Proof.
         apply not_eol in Hl' as [H1 H2]. apply N.eqb_neq in H1, H2. rewrite H1, H2. reflexivity.
     + apply not_eol in Hb as [Hb1 Hb2]. apply N.eqb_neq in Hb1. rewrite Hb1.
       rewrite IH by assumption. cbn [hd].
-      destruct (line_tail b l) as [e|]; [|reflexivity]. cbn [option_map length rev Nat.sub].
+      destruct (line_tail_m (sb st) b l) as [e|]; [|reflexivity]. cbn [option_map length rev Nat.sub].
       rewrite <- !app_assoc. reflexivity.
 Qed.
 
-Lemma line_tail_no_eol : forall l prev e, no_eol l -> line_tail prev l = Some e -> no_eol e.
+Lemma line_tail_no_eol (strip : bool) : forall l prev e, no_eol l -> line_tail_m strip prev l = Some e -> no_eol e.
 Proof.
-  induction l as [|b l IH]; intros prev e Hl H; cbn [line_tail] in H.
+  induction l as [|b l IH]; intros prev e Hl H; cbn [line_tail_m] in H.
   - injection H as <-. constructor.
   - inversion Hl as [|? ? Hb Hl']; subst.
     destruct (N.eqb b 35 && negb (N.eqb prev 92)); [injection H as <-; constructor|].
-    destruct (is_blank b).
+    destruct (strip && is_blank b).
     + destruct (forallb is_blank l); [injection H as <-; constructor|discriminate].
-    + destruct (line_tail b l) as [e'|] eqn:E; [|discriminate]. injection H as <-.
+    + destruct (line_tail_m strip b l) as [e'|] eqn:E; [|discriminate]. injection H as <-.
       constructor; [assumption|]. eapply IH; eassumption.
 Qed.
 
 (** ------------------------------------------------------------ the non-empty NUL-separated pieces of a buffer *)
-Definition is_nul (b : N) : bool := N.eqb b 0.
-Definition pieces (buf : bytes) : list bytes := filter (fun e => negb (is_nil e)) (split_on is_nul buf).
 Definition one (e : bytes) : list bytes := if is_nil e then [] else [e].
 
 Lemma no_eol_no_nul e : no_eol e -> Forall (fun b => is_nul b = false) e.
@@ -249,43 +248,58 @@ Proof.
       * right. exists (x :: l), s, r. subst. repeat split; auto. constructor; assumption.
 Qed.
 
-Lemma scan_file : forall (n : nat) (c d : bytes),
+Lemma line_tail_len (strip : bool) : forall l prev e, line_tail_m strip prev l = Some e -> length e <= length l.
+Proof.
+  induction l as [|b l IH]; intros prev e H; cbn [line_tail_m] in H.
+  - injection H as <-. cbn; lia.
+  - destruct (N.eqb b 35 && negb (N.eqb prev 92)); [injection H as <-; cbn; lia|].
+    destruct (strip && is_blank b).
+    + destruct (forallb is_blank l); [injection H as <-; cbn; lia|discriminate].
+    + destruct (line_tail_m strip b l) as [e'|] eqn:E; [|discriminate]. injection H as <-.
+      specialize (IH _ _ E). cbn [length]. lia.
+Qed.
+
+Lemma scan_file (st : nat) : forall (n : nat) (c d : bytes),
   length c < n -> hd 0%N d = 0%N ->
-  match all_some (map line_entry (split_on is_eol c)) with
-  | None => scan3 d c = Ok None
-  | Some es => exists img, scan3 d c = Ok (Some (rev d ++ img)) /\
-                           pieces img = filter (fun e => negb (is_nil e)) es
+  match all_some (map (line_tail_m (sb st) 0) (split_on is_eol c)) with
+  | None => scanm st d c = Ok None
+  | Some es => exists img, scanm st d c = Ok (Some (rev d ++ img)) /\
+                           pieces img = filter (fun e => negb (is_nil e)) es /\
+                           length img = length c
   end.
 Proof.
   induction n as [|n IH]; intros c d Hn Hd; [lia|].
   destruct (eol_split c) as [Hc|(l & s & r & -> & Hl & Hs)].
-  - rewrite (split_on_nosep is_eol c Hc). cbn [map all_some]. unfold line_entry.
-    pose proof (scan_line c d [] Hc (or_introl eq_refl)) as Hs. rewrite app_nil_r, Hd in Hs.
-    destruct (line_tail 0 c) as [e|] eqn:E; [|assumption]. cbn [option_map].
-    exists (e ++ repeat 0%N (length c - length e)). split.
+  - rewrite (split_on_nosep is_eol c Hc). cbn [map all_some].
+    pose proof (scan_line st c d [] Hc (or_introl eq_refl)) as Hs. rewrite app_nil_r, Hd in Hs.
+    destruct (line_tail_m (sb st) 0 c) as [e|] eqn:E; [|assumption]. cbn [option_map].
+    pose proof (line_tail_len _ _ _ _ E) as Hlen.
+    exists (e ++ repeat 0%N (length c - length e)). split; [|split].
     + rewrite Hs, scan3_nil. rewrite !rev_app_distr, rev_involutive, rev_repeat, <- app_assoc. reflexivity.
     + rewrite pieces_entry_zeros by (apply no_eol_no_nul; eapply line_tail_no_eol; eassumption).
       unfold one. cbn [filter]. destruct (is_nil e); reflexivity.
-  - rewrite (split_on_app is_eol l s r Hl Hs). cbn [map all_some]. unfold line_entry at 1.
+    + rewrite app_length, repeat_length. lia.
+  - rewrite (split_on_app is_eol l s r Hl Hs). cbn [map all_some].
     rewrite scan_line by (auto; right; eauto). rewrite Hd.
-    destruct (line_tail 0 l) as [e|] eqn:E; [|reflexivity]. cbn [option_map].
+    destruct (line_tail_m (sb st) 0 l) as [e|] eqn:E; [|reflexivity]. cbn [option_map].
+    pose proof (line_tail_len _ _ _ _ E) as Hlen.
     set (d' := repeat 0%N (length l - length e) ++ rev e ++ d).
-    assert (Hstep : scan3 d' (s :: r) = scan3 (0%N :: d') r).
-    { rewrite scan3_cons. apply is_eol_cases in Hs as [-> | ->]; reflexivity. }
+    assert (Hstep : scanm st d' (s :: r) = scanm st (0%N :: d') r).
+    { rewrite scan3_cons. apply is_eol_cases in Hs as [-> | ->]; destruct (sb st); reflexivity. }
     rewrite Hstep.
     specialize (IH r (0%N :: d')). rewrite app_length in Hn. cbn [length] in Hn.
     specialize (IH ltac:(lia) eq_refl).
-    destruct (all_some (map line_entry (split_on is_eol r))) as [es|]; cbn [option_map]; [|assumption].
-    destruct IH as (img & Es & Ep).
-    exists (e ++ repeat 0%N (length l - length e) ++ 0%N :: img). split.
+    destruct (all_some (map (line_tail_m (sb st) 0) (split_on is_eol r))) as [es|]; cbn [option_map]; [|assumption].
+    destruct IH as (img & Es & Ep & El).
+    exists (e ++ repeat 0%N (length l - length e) ++ 0%N :: img). split; [|split].
     + rewrite Es. unfold d'. cbn [rev]. rewrite !rev_app_distr, rev_involutive, rev_repeat, <- !app_assoc.
       reflexivity.
     + rewrite pieces_entry_zeros_more by (apply no_eol_no_nul; eapply line_tail_no_eol; eassumption).
       rewrite Ep. unfold one. cbn [filter]. destruct (is_nil e); reflexivity.
+    + rewrite ?app_length, ?repeat_length; cbn [length]; rewrite ?app_length, ?repeat_length; cbn [length]; lia.
 Qed.
 
 (** ------------------------------------------------------------ compaction *)
-Definition cat (es : list bytes) : bytes := concat (map (fun e => e ++ [0%N]) es).
 
 Definition glue (seg : bytes) (ps : list bytes) : list bytes :=
   match ps with x :: xs => (rev seg ++ x) :: xs | [] => [] end.
@@ -350,25 +364,88 @@ Proof.
   eapply Forall_impl; [|exact H]. intros b Hb. now apply N.eqb_neq.
 Qed.
 
+(** bridge to the published mode-3 definitions *)
+Lemma line_tail_m_true : forall l prev, line_tail_m true prev l = line_tail prev l.
+Proof.
+  induction l as [|b l IH]; intros prev; [reflexivity|]. cbn [line_tail_m line_tail andb]. now rewrite IH.
+Qed.
+
+Lemma list_spec_m_true (content : bytes) : list_spec_m true content = list_spec content.
+Proof.
+  unfold list_spec_m, list_spec. f_equal. f_equal. apply map_ext. intros l. apply line_tail_m_true.
+Qed.
+
+Lemma pieces_nil_iff (img : bytes) : pieces img = [] <-> forallb (N.eqb 0) img = true.
+Proof.
+  induction img as [|b r IH]; [split; reflexivity|].
+  cbn [forallb]. destruct (N.eqb 0 b) eqn:Eb.
+  - apply N.eqb_eq in Eb. subst b. change (0%N :: r) with ([] ++ 0%N :: r).
+    rewrite pieces_app by constructor. cbn [one is_nil app andb]. exact IH.
+  - split; [|discriminate]. intros H. exfalso. unfold pieces in H. cbn [split_on] in H.
+    unfold is_nul at 1 in H. rewrite N.eqb_sym, Eb in H.
+    pose proof (split_on_not_nil is_nul r) as Hne.
+    destruct (split_on is_nul r) as [|x xs]; [congruence|]. cbn in H. discriminate.
+Qed.
+
+(** lloadfilefd for every non-zero mode *)
+Lemma lloadfile_compact (st : nat) (content : bytes) :
+  st <> 0 -> has_bit st 1 = true ->
+  lloadfile st content =
+    Ok (match list_spec_m (sb st) content with None => LErr | Some es => LOk (length (cat es), cat es) end)
+  /\ (forall es, list_spec_m (sb st) content = Some es -> Forall entry_ok es).
+Proof.
+  intros Hst Hc1. destruct content as [|c0 c'].
+  - split; [reflexivity|]. intros es H. cbn in H. injection H as <-. constructor.
+  - set (c := c0 :: c'). unfold lloadfile. fold c.
+    change (match c with [] => Ok (LOk (0, [])) | _ :: _ => ?x end) with x.
+    apply Nat.eqb_neq in Hst. rewrite Hst.
+    change (ll_scan (S (length c)) st [] c) with (scanm st [] c).
+    pose proof (scan_file st (S (length c)) c [] (Nat.lt_succ_diag_r _) eq_refl) as H.
+    unfold list_spec_m.
+    destruct (all_some (map (line_tail_m (sb st) 0) (split_on is_eol c))) as [es0|]; cbn [option_map].
+    + destruct H as (img & Es & Ep & El). rewrite Es. cbn [bind rev app].
+      lconsts. rewrite Hc1.
+      rewrite compact_pieces, Ep. split; [reflexivity|].
+      intros es Hes. injection Hes as <-. rewrite <- Ep. apply pieces_ok.
+    + rewrite H. split; [reflexivity|]. intros es Hes. discriminate.
+Qed.
+
+Lemma lloadfile_nocompact (st : nat) (content : bytes) :
+  st <> 0 -> has_bit st 1 = false ->
+  match list_spec_m (sb st) content with
+  | None => lloadfile st content = Ok LErr
+  | Some [] => lloadfile st content = Ok (LOk (0, []))
+  | Some es => exists img, lloadfile st content = Ok (LOk (length content, img)) /\
+                           length img = length content /\ pieces img = es
+  end.
+Proof.
+  intros Hst Hc1. destruct content as [|c0 c']; [reflexivity|].
+  set (c := c0 :: c'). unfold lloadfile. fold c.
+  change (match c with [] => Ok (LOk (0, [])) | _ :: _ => ?x end) with x.
+  apply Nat.eqb_neq in Hst. rewrite Hst.
+  change (ll_scan (S (length c)) st [] c) with (scanm st [] c).
+  pose proof (scan_file st (S (length c)) c [] (Nat.lt_succ_diag_r _) eq_refl) as H.
+  unfold list_spec_m.
+  destruct (all_some (map (line_tail_m (sb st) 0) (split_on is_eol c))) as [es0|]; cbn [option_map].
+  - destruct H as (img & Es & Ep & El). rewrite Es. cbn [bind rev app]. lconsts. rewrite Hc1.
+    rewrite <- Ep.
+    destruct (forallb (N.eqb 0) img) eqn:Ez.
+    + apply pieces_nil_iff in Ez. rewrite Ez. reflexivity.
+    + destruct (pieces img) as [|p ps] eqn:Epp.
+      * apply pieces_nil_iff in Epp. congruence.
+      * exists img. rewrite El. auto.
+  - rewrite H. reflexivity.
+Qed.
+
+Lemma lloadfile_raw (content : bytes) : lloadfile 0 content = Ok (LOk (length content, content)).
+Proof. destruct content; reflexivity. Qed.
+
 Lemma lloadfile3 (content : bytes) :
   lloadfile 3 content =
     Ok (match list_spec content with None => LErr | Some es => LOk (length (cat es), cat es) end)
   /\ (forall es, list_spec content = Some es -> Forall entry_ok es).
 Proof.
-  destruct content as [|c0 c'].
-  - split; [reflexivity|]. intros es H. cbn in H. injection H as <-. constructor.
-  - set (c := c0 :: c'). unfold lloadfile. fold c.
-    change (match c with [] => Ok (LOk (0, [])) | _ :: _ => ?x end) with x.
-    change (Nat.eqb 3 0) with false. cbv iota.
-    change (ll_scan (S (length c)) 3 [] c) with (scan3 [] c).
-    pose proof (scan_file (S (length c)) c [] (Nat.lt_succ_diag_r _) eq_refl) as H.
-    unfold list_spec.
-    destruct (all_some (map line_entry (split_on is_eol c))) as [es0|]; cbn [option_map].
-    + destruct H as (img & Es & Ep). rewrite Es. cbn [bind rev app].
-      change (has_bit 3 LL_COMPACT_BIT) with true. cbv iota.
-      rewrite compact_pieces, Ep. split; [reflexivity|].
-      intros es Hes. injection Hes as <-. rewrite <- Ep. apply pieces_ok.
-    + rewrite H. split; [reflexivity|]. intros es Hes. discriminate.
+  rewrite <- list_spec_m_true. apply (lloadfile_compact 3); [discriminate|reflexivity].
 Qed.
 
 (** ------------------------------------------------------------ walking the compacted buffer *)
@@ -572,3 +649,75 @@ Lemma loadint_orig_silent :
   /\ loadint_orig [49; 10; 50; 10]%N 4242%N = Ok (LOk 1%N)                  (* "1\n2\n" *)
   /\ int_spec [49; 10; 50; 10]%N 4242%N = None.
 Proof. vm_compute. repeat split; reflexivity. Qed.
+
+(** ------------------------------------------------------------ modes without the blank rule; one-line files *)
+Lemma line_tail_m_false : forall l prev, line_tail_m false prev l = Some (cut_comment prev l).
+Proof.
+  induction l as [|b l IH]; intros prev; [reflexivity|]. cbn [line_tail_m cut_comment andb].
+  destruct (N.eqb b 35 && negb (N.eqb prev 92)); [reflexivity|]. now rewrite IH.
+Qed.
+
+Lemma all_some_map {A B} (f : A -> B) (l : list A) : all_some (map (fun x => Some (f x)) l) = Some (map f l).
+Proof. induction l as [|x l IH]; [reflexivity|]. cbn [map all_some]. now rewrite IH. Qed.
+
+Lemma list_spec_m_false (content : bytes) : list_spec_m false content = Some (plain_lines content).
+Proof.
+  unfold list_spec_m, plain_lines.
+  rewrite (map_ext _ (fun l => Some (cut_comment 0 l))) by (intros; apply line_tail_m_false).
+  now rewrite all_some_map.
+Qed.
+
+(** mode 1 (tlsserverciphers, one-line files): comments removed, lines compacted, never an error *)
+Theorem lloadfile1_correct (content : bytes) :
+  lloadfile 1 content = Ok (LOk (length (cat (plain_lines content)), cat (plain_lines content)))
+  /\ Forall entry_ok (plain_lines content).
+Proof.
+  destruct (lloadfile_compact 1 content ltac:(discriminate) eq_refl) as [E Hok].
+  change (sb 1) with false in *. rewrite list_spec_m_false in *. split; [exact E|]. now apply Hok.
+Qed.
+
+(** mode 2 (blank rule, no compaction): the buffer keeps the size of the file; its
+    NUL-separated non-empty strings are exactly the entries *)
+Theorem lloadfile2_correct (content : bytes) :
+  match list_spec content with
+  | None => lloadfile 2 content = Ok LErr
+  | Some [] => lloadfile 2 content = Ok (LOk (0, []))
+  | Some es => exists img, lloadfile 2 content = Ok (LOk (length content, img)) /\
+                           length img = length content /\ pieces img = es
+  end.
+Proof.
+  pose proof (lloadfile_nocompact 2 content ltac:(discriminate) eq_refl) as H.
+  change (sb 2) with true in H. rewrite list_spec_m_true in H. exact H.
+Qed.
+
+Theorem loadoneliner_correct (content : bytes) :
+  loadoneliner content =
+  Ok (match oneliner_spec content with
+      | OneNone => LOk None
+      | OneLine l => LOk (Some l)
+      | OneError => LErr
+      end).
+Proof.
+  unfold loadoneliner, oneliner_spec. lconsts. unfold LOADONELINER_MODE.
+  destruct (lloadfile1_correct content) as [E Hok]. rewrite E. cbn [bind].
+  destruct (plain_lines content) as [|e more]; [reflexivity|].
+  inversion Hok as [|? ? [Hne Hnz] Hmore]; subst.
+  rewrite cat_cons.
+  replace (Nat.eqb (length (e ++ 0%N :: cat more)) 0) with false
+    by (symmetry; apply Nat.eqb_neq; rewrite app_length; cbn [length]; lia).
+  rewrite take_cstr_cat by assumption. cbn [bind].
+  destruct more as [|e2 more].
+  - replace (Nat.eqb (length e + 1) (length (e ++ 0%N :: cat []))) with true
+      by (symmetry; apply Nat.eqb_eq; rewrite app_length; cbn; lia).
+    reflexivity.
+  - replace (Nat.eqb (length e + 1) (length (e ++ 0%N :: cat (e2 :: more)))) with false; [reflexivity|].
+    symmetry. apply Nat.eqb_neq. rewrite app_length, cat_cons. cbn [length]. rewrite app_length. cbn [length]. lia.
+Qed.
+
+(** what the entries look like: no NUL, not empty, and a prefix of a line *)
+Lemma cut_comment_prefix : forall l prev, exists t, l = cut_comment prev l ++ t.
+Proof.
+  induction l as [|b l IH]; intros prev; [exists []; reflexivity|]. cbn [cut_comment].
+  destruct (N.eqb b 35 && negb (N.eqb prev 92)); [exists (b :: l); reflexivity|].
+  destruct (IH b) as [t Ht]. exists t. cbn [app]. now rewrite <- Ht.
+Qed.
